@@ -107,6 +107,11 @@ def attribute(chk, results, pid, exe, scen, flavour, workdir, max_confirm=6, als
     seen = set()
     for rep, events, path in results:
         for f in rep["fails"]:
+            if f["p"] == "framework":
+                # the harness itself failed (bad control run, recorder error): never a verdict about the code
+                raise vlib.FrameworkError("harness failure in run %s (%s/%s): %s" % (rep["run"], scen, flavour, json.dumps(f["why"])[:600]))
+    for rep, events, path in results:
+        for f in rep["fails"]:
             if f["p"] != pid and f["p"] not in also:
                 continue
             key = (rep["run"], f["sig"])
